@@ -88,12 +88,21 @@ prop("C13", coq_deps=AUTHZ_DEPS,
      theorems=["C13_reset_fresh", "C13_rounds", "C13_rounds_outputs", "C13_history_cut", "C13_limits_invariant"],
      trusted=AUTHZ_TRUSTED, assumptions=["Reset is modelled as going back to the empty world carrying the configured limits (fix 829f55f)"])
 
-prop("C05", coq_deps=["Base.v", "Term.v", "Expr.v", "Datalog.v", "Corr.v", "DatalogProofs.v", "Odometer.v", "OdometerProofs.v", "Generated.v"],
+prop("C05", source_level=True,
+     coq_deps=["Base.v", "Term.v", "Expr.v", "Datalog.v", "Corr.v", "DatalogProofs.v", "Odometer.v", "OdometerProofs.v", "Generated.v", "Token.v", "GenFnDatalogProofs.v"] + SRC_DEPS,
      theorems=["C05_run_sound", "C05_run_complete", "C05_least_model", "C05_least_model_setfree", "C05_derivable_is_least",
                "C05_query_exact", "C05_query_sound", "C05_order_free", "C05_order_free_equal", "C05_world_only_grows",
                "C05_equal_is_equivalence", "C05_operators_respect_equal", "C05_set_operators_respect_equal", "C05_trel_is_equal",
-               "C05_odometer_refines", "C05_run_index_level", "C05_query_index_level"],
-     trusted=["Go's regexp is not modelled (Section variable rx)",
+               "C05_odometer_refines", "C05_run_index_level", "C05_query_index_level",
+               "C05_source_predicate_equal", "C05_source_predicate_match", "C05_source_factset_insert", "C05_source_factset_insert_all",
+               "C05_source_factset_equal", "C05_source_advance_indexes", "C05_source_advance_indexes_total", "C05_source_insert_no_duplicates",
+               "C05_source_insert_all_no_duplicates", "C05_source_insert_keeps_existing", "C05_source_insert_then_member",
+               "C05_source_match_symmetric", "C05_source_equal_symmetric", "C05_source_equal_implies_match"],
+     trusted=[SRC_TRUSTED + "; for C05 (stage E) also Predicate.Equal, Predicate.Match, FactSet.Insert/InsertAll/Equal and the odometer's carry step "
+              "advanceIndexes of datalog/datalog.go (the struct Predicate is the model record dpred, its declaration is checked against that; "
+              "`for i := e; i >= 0; i--` is a descending loop; `(*p)[i] = v` is an update of the list, out of range = Panic; other aliases of a "
+              "backing array are not represented)",
+              "Go's regexp is not modelled (Section variable rx)",
               "the join enumeration is modelled declaratively (combos: lexicographic index tuples pruned by Match); the literal index "
               "machine of combine/advanceIndexes is tied by the ORDERED correspondence (World.Facts() and QueryRule results compared as "
               "ordered lists) and by Proofs/OdometerProofs.v where closed",
@@ -102,7 +111,11 @@ prop("C05", coq_deps=["Base.v", "Term.v", "Expr.v", "Datalog.v", "Corr.v", "Data
                   "equivalence that every operator respects, so 'present' and 'same facts' are stated up to Predicate.Equal (InA / "
                   "PermutationA fact_eqv): the world keeps the first representative of each class (C05_modulo_equal shows this is "
                   "necessary: p([1,2]) and p([2,1]) are one fact); the set-free corollary keeps the syntactic statement",
-                  "base facts pairwise different (NoDupA), runs within limits"])
+                  "base facts pairwise different (NoDupA), runs within limits",
+                  "source-level statements (Properties/C05_source_level.v): Predicate.Equal/Match and FactSet.Insert/InsertAll/Equal equal the model for "
+                  "ALL inputs (in particular p2.Terms[i] cannot panic); advanceIndexes equals the model's `advance` when *current is inside indexes and "
+                  "below 2^63; Rule.Apply / combine (goroutines, channels), MatchedVariables (map writes) and World.Run are not translated: for them "
+                  "the tie is the ordered correspondence"])
 
 CHAIN_DEPS = ["Base.v", "Chain.v", "Corr.v", "ChainProofs.v", "Generated.v"]
 CHAIN_TRUSTED = ["ed25519 is not modelled: Section variables pub/sign/verify; laws used are stated in each theorem "
